@@ -69,3 +69,10 @@ package ipset
 //@   loop 1 invariant forall a int :: {spans[a].lo} 0 <= a && a < i ==> le128(spans[a].lo, k)
 //@   loop 1 invariant forall a int :: {spans[a].lo} j <= a && a < len(spans) ==> !le128(spans[a].lo, k)
 //@   loop 1 decreases j - i
+//@
+//@ # ContainsIP is Contains on the address converted from the net.IP (nothing for an unparsable slice)
+//@ uninterp containsIP(s *Set, ip net.IP) bool
+//@ func (*Set).ContainsIP
+//@   trusted
+//@   modifies nothing
+//@   ensures result == containsIP(s, ip)
